@@ -30,10 +30,15 @@ def main():
     ids = [c['property_id'] for c in m['checks']]
     out = {}
     pats = sorted(glob.glob(os.path.join(VERIF, 'seeded/*/patch.diff'))) + sorted(glob.glob(os.path.join(VERIF, 'selftest/reverts/*.diff')))
-    for p in pats:
-        name = os.path.basename(os.path.dirname(p)) if p.endswith('patch.diff') else 'revert-' + os.path.basename(p)[:7]
+    from concurrent.futures import ThreadPoolExecutor
+    def name_of(p):
+        return os.path.basename(os.path.dirname(p)) if p.endswith('patch.diff') else 'revert-' + os.path.basename(p)[:7]
+    def one(p):
         c = run(p, ids)
-        out[name] = c
-        print(name, '->', 'PATCH FAILED' if c is None else (c if c else 'NOT CAUGHT'), flush=True)
+        print(name_of(p), '->', 'PATCH FAILED' if c is None else (c if c else 'NOT CAUGHT'), flush=True)
+        return name_of(p), c
+    with ThreadPoolExecutor(max_workers=int(os.environ.get('MX_JOBS', '5'))) as ex:
+        for n, c in ex.map(one, pats):
+            out[n] = c
     json.dump(out, open(os.path.join(VERIF, 'seeded/matrix.json'), 'w'), indent=1)
 main()
